@@ -23,6 +23,7 @@ import (
 	"os"
 	"os/exec"
 	"path/filepath"
+	"regexp"
 	"runtime"
 	"sort"
 	"strconv"
@@ -579,6 +580,8 @@ var cliCommands = [][]string{
 	{"analyze", "-e", "{2}", "-x"},
 	{"reduce", "-g", "k={4}", "-a", "total={sumi {.} {2}}", "-a", "n={sumi {.} 1}"},
 	{"filter", "-e", "{src}:{line}:{4}"},
+	{"histo", "-e", "{4}", "-x"},
+	{"histo", "-e", "{4}", "-x"},
 }
 
 func cliCase(c *run.Ctx, cs Case) {
@@ -671,6 +674,12 @@ func cliCase(c *run.Ctx, cs Case) {
 	sc := []int{5, 40, 120, 250}[r.Intn(4)]
 	points := fmt.Sprintf("batch.beforeSend=sleep:%dus:p0.5,worker.beforeSend=sleep:%dus:p0.3,files.afterSourceCount=sleep:%dms:n3,files.beforeClose=sleep:2ms,worker.beforeCloseOut=sleep:2ms",
 		perUs, 1+perUs/4, sc)
+	if !interrupt && cs.Index%2 == 0 {
+		// the aggregation loop as the slow stage: the workers count their matches and then wait for the loop, so render
+		// ticks fall between "counted" and "sampled", also for the last batches
+		points = fmt.Sprintf("agg.afterSampleBatch=sleep:%dus,files.afterSourceCount=sleep:%dms:n3", max(200, targetUs/nb), sc)
+		c.Count("cli_runs_with_a_slow_aggregation_loop", 1)
+	}
 	if interrupt {
 		// keep the main goroutine between its last receive and the log flush for a while: what the reader
 		// goroutines log in that window is ordered with the flush only by the logger's own lock
@@ -732,6 +741,16 @@ func cliCase(c *run.Ctx, cs Case) {
 	}
 	if code != wantCode && code != 66 { // 66 = race detector's exit status, reports are read from the logs
 		c.Violation("cli-exit:"+command[0], fmt.Sprintf("rare %s exit status %d, expected %d; stderr tail %s", command[0], code, wantCode, run.Q(tailStr(es, 400))), cs)
+	}
+	if command[0] == "histo" && len(command) == 4 && command[3] == "-x" && w.Matcher.Kind != "dissect" {
+		// "the final render happens after the last match was sampled, so final output reflects all matches" - through
+		// the command's own render callback: the histogram printed at the end (periodic renders were on all along:
+		// VERIF_LIVE_OUTPUT) shows, for every key on it, the count of the whole input, and the summary the whole input's totals
+		if msg := judgeFinalHisto(w, stdout.String()); msg != "" {
+			c.Violation("cli-final-output:"+command[0], fmt.Sprintf("rare %s: %s [args %q points %q]\nfinal output:\n%s", command[0], msg, args[:len(args)-len(files)], points, tailStr(stdout.String(), 1500)), cs)
+		} else {
+			c.Count("cli_final_histograms_judged", 1)
+		}
 	}
 	c.Count("cli_race_runs", 1)
 	c.SetAdd("cli_commands", command[0])
@@ -838,3 +857,76 @@ func tailStr(s string, n int) string {
 	}
 	return s
 }
+
+// judgeFinalHisto: `histo -e {4} -x` with the structured regex and the ignore rules I and J over a loop corpus: the
+// key of a line f:n:class:key is its last field; classes M, E and W are matched, I and J ignored, U does not match.
+func judgeFinalHisto(w *pipe.Workload, out string) string {
+	want := map[string]int64{}
+	var matched, read, ignored int64
+	for _, in := range w.Inputs {
+		for _, ln := range bytes.Split(in.Data, []byte("\n")) {
+			if len(ln) == 0 {
+				continue
+			}
+			read++
+			f := strings.SplitN(string(ln), ":", 4)
+			if len(f) != 4 || len(f[2]) != 1 {
+				continue
+			}
+			switch f[2] {
+			case "I", "J":
+				ignored++
+			case "M", "E", "W":
+				if f[3] == "" {
+					ignored++ // empty key
+				} else {
+					want[f[3]]++
+					matched++
+				}
+			}
+		}
+	}
+	lines := strings.Split(strings.TrimRight(out, "\n"), "\n")
+	shown := 0
+	sawSummary := false
+	for _, ln := range lines {
+		if strings.HasPrefix(ln, "Matched:") {
+			sawSummary = true
+			m := summaryRe.FindStringSubmatch(strings.ReplaceAll(ln, ",", ""))
+			if m == nil {
+				return "the summary line cannot be read: " + run.Q(ln)
+			}
+			gm, _ := strconv.ParseInt(m[1], 10, 64)
+			gr, _ := strconv.ParseInt(m[2], 10, 64)
+			if gm != matched || gr != read {
+				return fmt.Sprintf("the final summary says %d / %d, the whole input has %d matched of %d lines", gm, gr, matched, read)
+			}
+			break
+		}
+		f := strings.Fields(ln)
+		if len(f) < 2 {
+			continue
+		}
+		n, ok := want[f[0]]
+		if !ok {
+			continue
+		}
+		got, err := strconv.ParseInt(strings.ReplaceAll(f[1], ",", ""), 10, 64)
+		if err != nil {
+			continue
+		}
+		shown++
+		if got != n {
+			return fmt.Sprintf("the final histogram shows %s = %d, the whole input has %d", run.Q(f[0]), got, n)
+		}
+	}
+	if !sawSummary {
+		return "the final output has no summary line"
+	}
+	if wantRows := min(5, len(want)); shown < wantRows {
+		return fmt.Sprintf("the final histogram shows %d of the %d rows it has room for", shown, wantRows)
+	}
+	return ""
+}
+
+var summaryRe = regexp.MustCompile(`Matched: (\d+) / (\d+)`)
